@@ -587,21 +587,19 @@ func runC18(c *report.Ctx) {
 	// ---- (4) retry -------------------------------------------------------------------------------------------
 	c.Rule("retry", "the worker re-queues an import that did not finish and a removal that failed for a reason other than shutdown", 2)
 	worker := fn(c, pkgWallet, "", "worker")
-	pushImport := fn(c, pkgWallet, "WalletTaskChan", "PushImport")
-	pushRemove := fn(c, pkgWallet, "WalletTaskChan", "PushRemove")
 	asyncImport := fn(c, pkgWallet, "NtfnsHandler", "asyncImport")
-	if worker != nil && pushImport != nil && pushRemove != nil && asyncImport != nil && ar != nil {
+	if worker != nil && asyncImport != nil && ar != nil {
 		okI, okR := false, false
-		for _, s := range calls(worker, pushImport) {
-			if an.AnyAtom(p.GuardsOf(s), func(a an.Atom) bool {
+		for _, tp := range pushesOf(c, worker, "import") {
+			if an.AnyAtom(tp.Guards(p), func(a an.Atom) bool {
 				// !fin where fin derives from asyncImport#0
 				return a.Op == token.ILLEGAL && !a.Truth && strings.Contains(p.Desc(a.X), nm(asyncImport))
 			}) {
 				okI = true
 			}
 		}
-		for _, s := range calls(worker, pushRemove) {
-			if an.AnyAtom(p.GuardsOf(s), func(a an.Atom) bool {
+		for _, tp := range pushesOf(c, worker, "remove") {
+			if an.AnyAtom(tp.Guards(p), func(a an.Atom) bool {
 				return a.Op == token.NEQ && strings.Contains(p.Desc(a.X)+p.Desc(a.Y), nm(ar)) && strings.Contains(p.Desc(a.X)+p.Desc(a.Y), "ErrTaskAbort")
 			}) {
 				okR = true
